@@ -108,7 +108,9 @@ class Effects:
                 elif isinstance(n, ast.AnnAssign) and n.value is not None:
                     pairs += self._assign_pairs(func, n.target, n.value, env)
                 elif isinstance(n, ast.AugAssign) and isinstance(n.target, ast.Name):
-                    pairs.append((n.target.id, self.expr_tags(func, n.value, env) | {("F",)}))
+                    # x += y: a list is extended in place (it keeps its own identity and gains y's *elements*); a number or a
+                    # string is re-bound to a fresh value.  Either way x does not become y.
+                    pairs.append((n.target.id, {("F",)} | {("EL", t) for t in self._elements(self.expr_tags(func, n.value, env)) if t[0] != "F"}))
                 elif isinstance(n, (ast.For, ast.comprehension)):
                     pairs += self._iter_pairs(func, n.target, n.iter, env)
                 elif isinstance(n, ast.withitem) and n.optional_vars is not None:
@@ -519,9 +521,15 @@ class Effects:
         self._direct[func] = out
         return out
 
-    def _is_pmap_local(self, func, name):
+    def _is_pmap_local(self, func, name, _busy=()):
+        """A local that only ever holds persistent maps: every binding is a pmap field, the result of a pure pmap method, or
+        another such local.  (An unbound name -- a parameter -- is not one.)"""
+        if name in _busy:
+            return True
+        seen = False
         for n in walk_body(func):
             if isinstance(n, ast.Assign) and any(isinstance(t, ast.Name) and t.id == name for t in n.targets):
+                seen = True
                 v = n.value
                 if isinstance(v, ast.Attribute):
                     rt = self.calls.type_of(func, v.value)
@@ -530,8 +538,10 @@ class Effects:
                     return False
                 if isinstance(v, ast.Call) and isinstance(v.func, ast.Attribute) and v.func.attr in PMAP_PURE:
                     continue
+                if isinstance(v, ast.Name) and v.id not in func.all_params and self._is_pmap_local(func, v.id, tuple(_busy) + (name,)):
+                    continue
                 return False
-        return True
+        return seen or name not in func.all_params
 
     def param_writes(self, func, _seen=None):
         """Set of this function's parameters whose object (or something reachable from it) may be mutated,
